@@ -101,7 +101,8 @@ func checkC20(c *Ctx) {
 					}
 					pos = c.P.Pos(u.Lines[fd.Line-1].Pos)
 				}
-				k := fmt.Sprintf("mock response field %s: %s in code emitted by %s", class, classifyTypeError(fd.Msg), em)
+				k := fmt.Sprintf("mock response field %s: %s", class, classifyTypeError(fd.Msg))
+				_ = em
 				if bad[k] == nil {
 					bad[k] = &agg{kinds: map[string]bool{}, msg: holeFree(fd.Msg), text: holeFree(fd.Text), pos: pos}
 				}
